@@ -129,16 +129,23 @@ static void spec_line(const char *p, struct spec *s)
   /* comment := b* c text, text = ANY bytes */
   if (in_set(p[i], COMMENT)) { s->kind = L_COMMENT; s->cs = i + 1; s->ce = n; return; }
   if (p[i] == '[') {
-    /* header := b* '[' b* name b* ']' b*      (no comment bytes) */
-    size_t j = i + 1, close = n;
-    for (size_t k = i + 1; k < n; k++) {
-      if (in_set(p[k], COMMENT) || p[k] == '"' || !(is_print(p[k]) || is_blank(p[k]))) return;
+    /* header := b* '[' name ']' b* [b+ c ctext]   (ctext: no comment byte, no quote) */
+    size_t j = i + 1, close = n, hn = n;
+    for (size_t k = i + 1; k < n; k++)
+      if (p[k] == '"' || !(is_print(p[k]) || is_blank(p[k]))) return;
+    for (size_t k = i + 1; k < n; k++)
+      if (in_set(p[k], COMMENT)) {
+        if (hn != n) return;              /* two comment bytes: unspecified */
+        if (!is_blank(p[k - 1])) return;  /* comment byte glued to the text: unspecified */
+        hn = k;
+      }
+    while (hn > i + 1 && is_blank(p[hn - 1])) hn--;   /* header text is [i, hn) */
+    for (size_t k = i + 1; k < hn; k++)
       if (p[k] == ']' && close == n) close = k;
-    }
     if (close == n) { s->kind = L_BAD_NOCLOSE; return; }
-    for (size_t k = close + 1; k < n; k++)
+    for (size_t k = close + 1; k < hn; k++)
       if (p[k] == ']') return;          /* more than one ']' : leave unspecified */
-    for (size_t k = close + 1; k < n; k++)
+    for (size_t k = close + 1; k < hn; k++)
       if (!is_blank(p[k])) { s->kind = L_BAD_TEXTAFTER; return; }
     if (close == i + 1) { s->kind = L_BAD_EMPTY; return; }
     /* blanks directly inside the brackets: whether they belong to the name
@@ -261,6 +268,7 @@ static econf_file *new_object(void)
   __CPROVER_assume(ef != NULL);
   ef->python_style = PYTHON;
   ef->join_same_entries = JOIN;
+  ef->comment = COMMENT[0];   /* set by read_file_with_callback before the parser runs */
   return ef;
 }
 
